@@ -111,3 +111,22 @@ def audit(spec, rec, counts):
                   "attached differs from the plain run",
                   mechanism="harness:monitor")]
     return []
+
+
+CROSS = ("c01", "c02", "c05", "c06", "c07", "c08")
+
+
+def cross_spec(own_id, case):
+    """Spec drawn from the workload generator of ANOTHER end-to-end check
+    (same (seed, index) -> same spec as that check's own case), so that every
+    oracle is also exercised on the workloads built around the other
+    properties' quantifiers."""
+    import importlib
+    mods = [m for m in CROSS if m != own_id.lower()]
+    mod = importlib.import_module("checks." + mods[case["idx"] % len(mods)])
+    fams = [p[0] for p in mod.PLAN if p[0] not in ("malformed", "cross")]
+    k = case["idx"] // len(mods)
+    fam = fams[k % len(fams)]
+    foreign = {"id": case["id"], "fam": fam, "idx": k // len(fams),
+               "seed": case["seed"]}
+    return mod.make_spec(foreign), mod.ID + ":" + fam
